@@ -52,6 +52,19 @@ def case_st(draw, only=None):
             for i in range(size):
                 if draw(st.integers(0, 3)) == 0:
                     t[1][i] = 0
+    if fn in ("sortable_proxy", "argext") and len(names) >= 2 and draw(st.booleans()):
+        # every element is a single monomial of one total degree: which one is extreme depends only on
+        # the lexicographic tie-break, i.e. on the reverse flag
+        deg = draw(st.integers(1, 3))
+        import itertools as _it
+        monos = [list(e) for e in _it.product(range(deg + 1), repeat=len(names)) if sum(e) == deg]
+        picks = draw(st.lists(st.sampled_from(monos), min_size=size, max_size=size))
+        rows = []
+        for m in picks:
+            if m not in rows:
+                rows.append(m)
+        desc["terms"] = [[r, [1 if picks[i] == r else 0 for i in range(size)]] for r in rows]
+        desc["retain"] = False
     if fn in ("lead_exponent", "lead_coefficient") and desc["terms"] and draw(st.integers(0, 2)) == 0:
         # stored all-zero terms above the true leading term (as alignment / derivatives leave them)
         desc["retain"] = True
